@@ -843,44 +843,43 @@ loop:
 // persisting state. In factory mode, the primary and (if mid-reset)
 // alternate datastores are closed since they are owned by the keystore.
 // The metaDs is not closed because it is owned by the caller.
-func (s *ResettableKeystore) Close() (err error) {
-	select {
-	case <-s.close:
-		// Already closed
-	default:
-		close(s.close)
-		<-s.done // Wait for worker to exit (no new buffer appends after this).
-		// Wait for any in-flight altDs write from ResetCids to finish.
-		// We never release the token, so subsequent ResetCids callers fall
-		// through on <-s.done.
-		<-s.altDsBusy
+func (s *ResettableKeystore) Close() error {
+	s.closeOnce.Do(func() { s.closeErr = s.shutdown() })
+	return s.closeErr
+}
 
-		// In factory mode, defer closing owned datastores (primary and alt)
-		// so they are closed even if persistSize/Sync fails. The metaDs
-		// is not closed here because it is owned by the caller.
-		if s.createDs != nil {
-			defer func() {
-				if cerr := s.ds.Close(); cerr != nil {
-					err = errors.Join(err, fmt.Errorf("error closing primary datastore: %w", cerr))
-				}
-				// altDs is nil between resets; only close if a reset was in
-				// progress when Close was called.
-				if s.altDs != nil {
-					if cerr := s.altDs.Close(); cerr != nil {
-						err = errors.Join(err, fmt.Errorf("error closing alt datastore: %w", cerr))
-					}
-				}
-			}()
-		}
+// shutdown is the body of Close; it runs at most once.
+func (s *ResettableKeystore) shutdown() (err error) {
+	close(s.close)
+	<-s.done // Wait for worker to exit (no new buffer appends after this).
+	// Wait for any in-flight altDs write from ResetCids to finish.
+	// We never release the token, so subsequent ResetCids callers fall
+	// through on <-s.done.
+	<-s.altDsBusy
 
-		if err = s.persistSize(); err != nil {
-			err = fmt.Errorf("error persisting size on close: %w", err)
-			return
-		}
-		if err = s.ds.Sync(context.Background(), sizeKey); err != nil {
-			err = fmt.Errorf("error syncing size on close: %w", err)
-			return
-		}
+	// In factory mode, defer closing owned datastores (primary and alt)
+	// so they are closed even if persistSize/Sync fails. The metaDs
+	// is not closed here because it is owned by the caller.
+	if s.createDs != nil {
+		defer func() {
+			if cerr := s.ds.Close(); cerr != nil {
+				err = errors.Join(err, fmt.Errorf("error closing primary datastore: %w", cerr))
+			}
+			// altDs is nil between resets; only close if a reset was in
+			// progress when Close was called.
+			if s.altDs != nil {
+				if cerr := s.altDs.Close(); cerr != nil {
+					err = errors.Join(err, fmt.Errorf("error closing alt datastore: %w", cerr))
+				}
+			}
+		}()
 	}
-	return
+
+	if err = s.persistSize(); err != nil {
+		return fmt.Errorf("error persisting size on close: %w", err)
+	}
+	if err = s.ds.Sync(context.Background(), sizeKey); err != nil {
+		return fmt.Errorf("error syncing size on close: %w", err)
+	}
+	return nil
 }
